@@ -6,6 +6,10 @@ from elementpath.xpath3 import XPath3Parser  # noqa: E402
 from elementpath.xpath30 import XPath30Parser  # noqa: E402
 from elementpath.xpath31 import XPath31Parser  # noqa: E402
 
+if not PLAIN:
+    from verif_lib import ch_fixes as _chf
+    _chf.patch_elementpath()
+
 P1 = XPath1Parser()
 P2 = XPath2Parser()
 P30 = XPath30Parser()
